@@ -101,6 +101,17 @@ NoLoads == {}
 NoRecs == {}
 NoPrefix == <<>>
 WRecsOne == AllRecs(WNames, {"NS", "A", "TXT"}, {1})
+(* every name of the table as an owner: many sibling cuts, internal B-tree roots at t = 3, 4 *)
+BNames == TabSet
+BRecs == AllRecs(TabSet, {"NS", "A"}, {1})
+(* loads in ASCENDING canonical order of the first L table names: the right-most leaf of a B-tree
+   filled in order cycles through every occupancy up to "exactly full", for every L one shape;
+   with NS at every name that can be a sibling cut (top-level names other than d, and the
+   children of d) the delegation index gets the same shapes *)
+CutCandidates == {n \in TabSet : (Len(n) = 1 /\ n # n_d) \/ (Len(n) = 2 /\ n[2] = l_d)}
+AscLoad(L, nsset) == Std \o [i \in 1..(L - 1) |->
+                               R(NameTable[i + 1], IF NameTable[i + 1] \in nsset THEN "NS" ELSE "A")]
+FixedAsc == {AscLoad(L, {}) : L \in 6..Len(NameTable)} \cup {AscLoad(L, CutCandidates) : L \in 6..Len(NameTable)}
 CoreNames == {n_apex, n_d, n_xd, n_yxd, n_ed, n_f}
 (* plans (a .cfg file cannot spell tuples) *)
 P_0 == {<<>>}
